@@ -11,6 +11,7 @@ import TsVerif.C17.StackThm
 import TsVerif.C17.SortOrder
 import TsVerif.C17.MultiOrder
 import TsVerif.C17.WellNested
+import TsVerif.C17.LinesThm
 /-!
 # C17 — Highlight events are well nested and reproduce the source text exactly
 
@@ -37,6 +38,7 @@ code only by exact reproduction of real streams (correspondence) on the generate
 | 4 | "and all closed at the end" | same theorems as 2 (`judgeEvents` requires depth 0 after the last event) | model |
 | 5 | "spans produced by an injected language stay inside the injection's content" | `intersect_ranges_spec`, `injected_content_inside` (every computed content range is non-empty, inside a parent range, inside a content node, clear of children unless include-children), `injection_language_captured`; that a layer's captures lie inside its included ranges is a fact about parsing with included ranges (C13) | ranges: proved for the port (compared with the real private function through `hooks/C17-reexport.diff` when applied); SPANS inside content: judged only (`judgeInjected`, every real stream with injections) |
 | 6 | "the HTML renderer's output, with tags removed and entities decoded, is the source text up to its documented normalisations" | `render_roundtrip_gen` (ANY event stream, any decoder: html text = concatenated decoded chunks without CR + final newline rule), `render_roundtrip_fixed`, `render_roundtrip_partial`, `render_roundtrip_whole_fixed`, `render_reproduces_source` (valid UTF-8: html text = source without CRs + newline rule), `render_total_of_wellFormed` | model of `HtmlRenderer`; `_partial` for the iterator of the tree before `fixes/C17-lossy-truncated.diff` (witnesses `render_roundtrip_witness_truncated`, `render_roundtrip_witness_final_invalid`); real HTML judged on every R/H/C case (`judgeHtml`) |
+| 6b | the same PER LINE, as read through `HtmlRenderer::lines()` / `line_offsets` (the observation point "HtmlRenderer output"; the CLI prints the html line by line) | `render_line_offsets` (model: `line_offsets` = exactly the line starts of the html — 0 and the byte after every newline but a final one — and the html ends with a newline; hence the lines concatenate to the whole and each ends with a newline; hypothesis: the attribute callback writes no newline); per-line tags / re-opening / text with CR markers: no theorem | model; real output judged on every rendering (`judgeLines`: offsets, line-newline, line-tags, line-reopen, line-text), genuine finding `C17-cr-before-cr-unstyled` |
 | 7 | "carriage returns dropped" | part of `judgeHtml`/`textOf` (`filter (· ≠ 13)`) in the theorems of 6; `normalize_whole` | model |
 | 8 | "invalid UTF-8 replaced" | `lossyFixed_eq_spec` (∀ bytes, iterator after the fix = `String::from_utf8_lossy` spec), `lossy_eq_spec_partial`, `lossyV_diag`, witnesses `lossy_drops_truncated_tail`, `lossy_drops_final_replacement`, `lossySpec_valid` | model of `LossyUtf8`, compared byte for byte with the real iterator on every L case; `lossySpec` is my port of the std spec, compared with the real `from_utf8_lossy` on every L case |
 | 9 | "a final newline added" | `judgeHtml` alternatives in 6 (`t ++ "\n"` always, `t` only if it ends in a newline) | model; boundary convention below |
@@ -79,6 +81,11 @@ code only by exact reproduction of real streams (correspondence) on the generate
   from the lossy decoding of the whole source when a boundary splits a multi-byte sequence — that is
   what the code does, and the text's "invalid UTF-8 replaced" does not say which.  `hattr` (the
   attribute callback never writes `>`) is an external contract, not in the text.
+* **6b** per line only the offsets/newline statement is a theorem (`render_line_offsets`, model); that
+  the tags of each line are balanced, that open spans are re-opened in order, and that the CR marker
+  sits where the lone CR was, is judged only (`judgeLines`, every real rendering).  The optional
+  carriage-return highlight is not mentioned in the property text; its defect (a CR before a CR is not
+  styled) is reported as a known finding with `fixes/C17-cr-cr-marker.diff`.
 * **9** the renderer adds the newline after the last html BYTE (a closing tag after a final newline
   still gets one): accepted by the judge, stated in the boundary conventions.
 * **10 `local_ref_like_def` is `partial`**: one layer; the reference is the capture being processed;
@@ -185,6 +192,16 @@ theorem render_roundtrip_partial (cfg : RCfg) (hattr : ∀ h, 62 ∉ cfg.attr h)
 
 /-- The attribute callback of the harness and of the examples: `class=c<h>` style, no `>`. -/
 def exCfg : RCfg := { attr := fun h => [99, 48 + h % 10], crh := some 7 }
+
+/-- the attribute callback of the examples writes no newline (hypothesis of `render_line_offsets`) -/
+theorem exCfg_nl : ∀ h, 10 ∉ exCfg.attr h := by
+  intro h; simp only [exCfg, List.mem_cons, List.not_mem_nil, or_false, not_or]; omega
+
+/-- non-vacuity of `render_line_offsets` (`LinesThm.lean`): `a\r\nb\r` inside a highlight with a
+carriage-return highlight renders as `<span c1>a</span>\n<span c1>b<span c7></span></span>\n`; the CR of
+CRLF leaves no marker, the CR at the end does, and the second line starts at byte 18. -/
+example : (renderT lossyFixed exCfg [Ev.start 1, .source 0 5, .stop] [97, 13, 10, 98, 13]).lineOffsets = [0, 18] ∧
+    lineStarts (renderT lossyFixed exCfg [Ev.start 1, .source 0 5, .stop] [97, 13, 10, 98, 13]).html = [0, 18] := by decide
 
 theorem exCfg_attr : ∀ h, 62 ∉ exCfg.attr h := by
   intro h; simp only [exCfg, List.mem_cons, List.not_mem_nil, or_false, not_or]; omega
